@@ -299,6 +299,9 @@ func selectCase(facts *an.Facts, b *ssa.BasicBlock) (*ssa.Select, int) {
 }
 
 func chanName(v ssa.Value) string {
+	if r := invokeChanRole(v); r != "" {
+		return r
+	}
 	if u, ok := v.(*ssa.UnOp); ok && u.Op == token.MUL {
 		if a, ok := u.X.(*ssa.Alloc); ok {
 			return a.Comment
@@ -311,6 +314,213 @@ func chanName(v ssa.Value) string {
 		}
 	}
 	return an.Path(v)
+}
+
+// chanRoot follows a channel value to the local it lives in (a captured variable's cell) or to the make that
+// created it, through loads, conversions and closure captures.
+func chanRoot(v ssa.Value) ssa.Value {
+	for depth := 0; depth < 12; depth++ {
+		switch x := v.(type) {
+		case *ssa.UnOp:
+			if x.Op == token.MUL {
+				v = x.X
+				continue
+			}
+		case *ssa.ChangeType:
+			v = x.X
+			continue
+		case *ssa.Alloc:
+			// a cell written exactly once (a captured local initialised with the make, an argument cell) is what was stored
+			var only ssa.Value
+			n := 0
+			for _, g := range an.WithAnon(outermost(x.Parent())) {
+				an.AllInstrs(g, func(in ssa.Instruction) {
+					if st, ok := in.(*ssa.Store); ok && chanCell(st.Addr) == ssa.Value(x) {
+						n++
+						only = st.Val
+					}
+				})
+			}
+			if n == 1 && only != nil {
+				v = only
+				continue
+			}
+		case *ssa.FreeVar:
+			fn := x.Parent()
+			idx := -1
+			for i, fv := range fn.FreeVars {
+				if fv == x {
+					idx = i
+				}
+			}
+			var bound ssa.Value
+			if p := fn.Parent(); p != nil && idx >= 0 {
+				an.AllInstrs(p, func(in ssa.Instruction) {
+					if mc, ok := in.(*ssa.MakeClosure); ok && mc.Fn == ssa.Value(fn) && idx < len(mc.Bindings) {
+						bound = mc.Bindings[idx]
+					}
+				})
+			}
+			if bound != nil {
+				v = bound
+				continue
+			}
+		}
+		return v
+	}
+	return v
+}
+
+func outermost(f *ssa.Function) *ssa.Function {
+	for f != nil && f.Parent() != nil {
+		f = f.Parent()
+	}
+	return f
+}
+
+// chanCell resolves the address of a captured variable to the cell it denotes in the outermost function.
+func chanCell(addr ssa.Value) ssa.Value {
+	for depth := 0; depth < 8; depth++ {
+		fv, ok := addr.(*ssa.FreeVar)
+		if !ok {
+			return addr
+		}
+		fn := fv.Parent()
+		idx := -1
+		for i, x := range fn.FreeVars {
+			if x == fv {
+				idx = i
+			}
+		}
+		var bound ssa.Value
+		if p := fn.Parent(); p != nil && idx >= 0 {
+			an.AllInstrs(p, func(in ssa.Instruction) {
+				if mc, ok := in.(*ssa.MakeClosure); ok && mc.Fn == ssa.Value(fn) && idx < len(mc.Bindings) {
+					bound = mc.Bindings[idx]
+				}
+			})
+		}
+		if bound == nil {
+			return addr
+		}
+		addr = bound
+	}
+	return addr
+}
+
+var invokeChanRoles = map[*ssa.Function]map[ssa.Value]string{}
+
+// invokeChanRole names the local channels of Server.Invoke by what travels on them, whatever the variables are
+// called: the watchdog's channel carries ErrInvokeTimeout; of the two channels the invoke goroutine reports on,
+// one carries errors and the other the empty success token.
+func invokeChanRole(v ssa.Value) string {
+	ch, ok := v.Type().Underlying().(*types.Chan)
+	if !ok {
+		if u, isU := v.(*ssa.UnOp); isU && u.Op == token.MUL {
+			ch, ok = u.Type().Underlying().(*types.Chan)
+		}
+		if !ok {
+			return ""
+		}
+	}
+	_ = ch
+	root := chanRoot(v)
+	var top *ssa.Function
+	switch x := root.(type) {
+	case *ssa.Alloc:
+		top = x.Parent()
+	case *ssa.MakeChan:
+		top = x.Parent()
+	default:
+		return ""
+	}
+	for top != nil && top.Parent() != nil {
+		top = top.Parent()
+	}
+	if top == nil || an.FuncName(top) != srvT+".Invoke" {
+		return ""
+	}
+	roles, done := invokeChanRoles[top]
+	if !done {
+		roles = map[ssa.Value]string{}
+		timeout := map[ssa.Value]bool{}
+		var all []ssa.Value
+		for _, g := range an.WithAnon(top) {
+			an.AllInstrs(g, func(in ssa.Instruction) {
+				var chv, sent ssa.Value
+				switch x := in.(type) {
+				case *ssa.Send:
+					chv, sent = x.Chan, x.X
+				case *ssa.Select:
+					for _, st := range x.States {
+						if st.Dir == types.SendOnly {
+							r := chanRoot(st.Chan)
+							all = append(all, r)
+							if an.GlobalOf(st.Send) == "L/rapidcore.ErrInvokeTimeout" {
+								timeout[r] = true
+							}
+						}
+					}
+				case *ssa.MakeChan:
+					all = append(all, chanRoot(x))
+					for _, ref := range *x.Referrers() {
+						if st, isSt := ref.(*ssa.Store); isSt && st.Val == ssa.Value(x) {
+							all = append(all, chanRoot(st.Addr))
+						}
+					}
+				}
+				if chv != nil {
+					r := chanRoot(chv)
+					all = append(all, r)
+					if an.GlobalOf(sent) == "L/rapidcore.ErrInvokeTimeout" {
+						timeout[r] = true
+					}
+				}
+			})
+		}
+		for _, r := range all {
+			var t types.Type
+			switch x := r.(type) {
+			case *ssa.Alloc:
+				if p, isP := x.Type().Underlying().(*types.Pointer); isP {
+					t = p.Elem()
+				}
+			case *ssa.MakeChan:
+				t = x.Type()
+			}
+			if t == nil {
+				continue
+			}
+			cht, isCh := t.Underlying().(*types.Chan)
+			if !isCh {
+				continue
+			}
+			switch {
+			case timeout[r]:
+				roles[r] = "timeoutChan"
+			case types.Identical(cht.Elem(), types.Universe.Lookup("error").Type()):
+				roles[r] = "releaseErrChan"
+			default:
+				if st, isSt := cht.Elem().Underlying().(*types.Struct); isSt && st.NumFields() == 0 {
+					roles[r] = "releaseSuccessChan"
+				}
+			}
+		}
+		// a MakeChan stored into a captured local is that local
+		for _, g := range an.WithAnon(top) {
+			an.AllInstrs(g, func(in ssa.Instruction) {
+				if st, isSt := in.(*ssa.Store); isSt {
+					if mk, isMk := st.Val.(*ssa.MakeChan); isMk {
+						if role, has := roles[chanRoot(st.Addr)]; has {
+							roles[mk] = role
+						}
+					}
+				}
+			})
+		}
+		invokeChanRoles[top] = roles
+	}
+	return roles[root]
 }
 
 func checkInvokeRefusalPath(c *report.Ctx) {
